@@ -25,8 +25,12 @@ def seed():
         return 0
 
 
+TIER = "quick"      # set by bin/check; keeps the scratch directories of the two tiers apart
+
+
 def workdir(pid, sub=None):
-    d = os.path.join(WORK, pid) if sub is None else os.path.join(WORK, pid, sub)
+    top = pid if TIER == "quick" else pid + "-" + TIER
+    d = os.path.join(WORK, top) if sub is None else os.path.join(WORK, top, sub)
     os.makedirs(d, exist_ok=True)
     return d
 
